@@ -914,6 +914,88 @@ def r11_limit_walk(r, facts):
 
 
 
+def r12_boolean_summaries(r, facts):
+    """the yes/no accessors agree with the lengths they summarise (operations consult them to decide whether to submit at
+    all): Vec<u8>::has_spare_capacity is `capacity > len` where spare_capacity is `capacity - len`; for LimitedBuf,
+    has_spare_capacity is false when the limit is 0 and the inner buffer's answer otherwise, is_empty is true when the
+    limit is 0 and the inner buffer's answer otherwise — decided on the definitions of the return value and the edge of
+    the limit test each lies on (so `&&`/`||`, `if`, `match` spellings are one form)."""
+    n = 0
+    # Vec<u8>
+    for i, f in facts.impl_fns('io::traits::BufMut', 'has_spare_capacity'):
+        if not i['self'].startswith('std::vec::Vec<u8'):
+            continue
+        n += 1
+        rets = ret_exprs(f)
+        ok = False
+        for e in rets:
+            flip = False
+            while e[0] == 'un' and e[1] == 'Not':
+                e, flip = e[2], not flip
+            if e[0] == 'bin' and e[1] in ('Gt', 'Lt', 'Ne', 'Le', 'Ge', 'Eq'):
+                a, b = str(e[2]), str(e[3])
+                cap_left = 'capacity' in a and '::len' in b
+                cap_right = 'capacity' in b and '::len' in a
+                op = e[1]
+                if cap_right:
+                    op = {'Gt': 'Lt', 'Lt': 'Gt', 'Le': 'Ge', 'Ge': 'Le', 'Ne': 'Ne', 'Eq': 'Eq'}[op]
+                if cap_left or cap_right:
+                    truth = op in ('Gt', 'Ne')          # capacity > len  (capacity >= len always holds)
+                    falsity = op in ('Le', 'Eq')
+                    ok = (truth and not flip) or (falsity and flip)
+            elif e[0] == 'bin' and e[1] in ('Ne', 'Gt') and any(x[0] == 'call' and x[1].endswith('spare_capacity') for x in subexprs(e)):
+                ok = not flip
+        r.inst('Vec<u8>::has_spare_capacity = %s' % ([str(x)[:80] for x in rets],), f.where())
+        r.require(ok, 'summary:Vec::has_spare_capacity', 'Vec<u8>::has_spare_capacity is not `capacity() > len()` (true with no room left: a read with a zero-length buffer is submitted and taken for the end of the stream; or false with room)', f.where())
+    # LimitedBuf
+    for trait, meth, at_zero, inner in (('io::traits::BufMut', 'has_spare_capacity', 0, 'has_spare_capacity'), ('io::traits::BufMutSlice', 'has_spare_capacity', 0, 'has_spare_capacity'),
+                                         ('io::traits::Buf', 'is_empty', 1, 'is_empty'), ('io::traits::BufSlice', 'is_empty', 1, 'is_empty')):
+        for i, f in facts.impl_fns(trait, meth):
+            if not i['self'].startswith('io::traits::LimitedBuf'):
+                continue
+            n += 1
+            name = 'LimitedBuf::%s (%s)' % (meth, trait.rsplit('::', 1)[1])
+            eb = ExprBuilder(f, multi='phi')
+            zero_e = nz_e = None
+            for b, blk in enumerate(f.blocks):
+                t = blk['term']
+                if blk['cleanup'] or t['k'] != 'switch':
+                    continue
+                e = eb.operand(t['discr'])
+                vals = {int(v): tg for v, tg in t['targets']}
+                if e[0] == 'bin' and e[1] in ('Eq', 'Ne', 'Gt') and any(fam.last_field(y) == 'limit' for y in (e[2], e[3])) and any(y[0] == 'const' and y[1] == 0 for y in (e[2], e[3])):
+                    t_true, t_false = vals.get(1, t['otherwise']), vals.get(0)
+                    zero_e, nz_e = ((b, t_true), (b, t_false)) if e[1] == 'Eq' else ((b, t_false), (b, t_true))
+                elif 'l' in t['discr'] and fam.last_field(e) == 'limit' and 0 in vals:
+                    zero_e, nz_e = (b, vals[0]), (b, t['otherwise'])
+            if not r.require(zero_e is not None and None not in zero_e and None not in nz_e, 'summary:%s/test' % name, 'the test of the limit against 0 was not found (unrecognised form)', f.where()):
+                continue
+            bad = []
+            defs = [(loc, ('const', eb.rvalue(s_['rv']))) for loc, s_ in f.assigns() if s_['lhs']['l'] == 0 and not s_['lhs']['p'] and not f.blocks[loc[0]]['cleanup']] + \
+                   [(loc, ('call', t.get('callee') or '')) for loc, t in f.calls() if is_local(t['dest'], 0) and not f.blocks[loc[0]]['cleanup']]
+            for loc, (kind, v) in defs:
+                if kind == 'call':
+                    if not (v.endswith('::' + inner) and f.edge_dominates(nz_e, loc)):
+                        bad.append('%s on the %s edge' % (v.rsplit('::', 1)[-1], 'limit == 0' if f.edge_dominates(zero_e, loc) else 'unguarded'))
+                else:
+                    e = v
+                    if e[0] == 'const' and e[1] in (0, 1, True, False):
+                        if int(e[1]) != at_zero or not f.edge_dominates(zero_e, loc):
+                            bad.append('constant %s %s' % (bool(e[1]), 'with limit == 0' if f.edge_dominates(zero_e, loc) else 'with limit != 0' if f.edge_dominates(nz_e, loc) else 'unguarded'))
+                    elif e[0] == 'call' and e[1].endswith('::' + inner):
+                        if not f.edge_dominates(nz_e, loc):
+                            bad.append('inner answer used with limit == 0')
+                    elif e[0] == 'phi' or e[0] == 'local':
+                        continue        # a join of the alternatives judged above
+                    else:
+                        bad.append('unrecognised: %s' % str(e)[:60])
+            r.inst('%s: %s when the limit is 0, the inner buffer\'s answer otherwise: %s' % (name, bool(at_zero), not bad), f.where())
+            r.require(not bad and len(defs) >= 2, 'summary:%s' % name, '%s does not answer %s for a limit of 0 and with the inner buffer\'s %s() otherwise (%s): operations are submitted with nothing to transfer, or not submitted although there is room/data' % (name, bool(at_zero), inner, '; '.join(bad) or 'alternatives not found'), f.where())
+    r.require(n >= 4, 'summary/sites', 'expected the boolean summaries of Vec<u8> and LimitedBuf (>= 4), found %d' % n)
+    r.floor(4)
+
+
+
 def check(ctx):
     ctx.run('C14.R1', 'LimitedBuf.limit is never narrowed with a truncating cast', r1_limit_casts)
     ctx.run('C14.R2', 'tuples/arrays: element order and coverage in as_iovecs[_mut], set_init shape, totals', r2_order_coverage)
@@ -925,4 +1007,5 @@ def check(ctx):
     ctx.run('C14.R9', 'iovec views: len/ptr read, set_len stores, skip advances the base and shortens the length, on every path', r9_iovec_wrappers)
     ctx.run('C14.R10', 'set_init bookkeeping: Vec<u8> grows by n, LimitedBuf takes n off its limit, on every path', r10_init_bookkeeping)
     ctx.run('C14.R11', 'LimitedBuf iovecs: the limit is distributed front to back (fits: count -= len; else trim to count, count = 0)', r11_limit_walk)
+    ctx.run('C14.R12', 'boolean summaries agree with the lengths: Vec<u8>::has_spare_capacity, LimitedBuf::has_spare_capacity / is_empty', r12_boolean_summaries)
     ctx.run('C14.R8', 'buffer wrappers pass set_init/buffer_init on to the inner buffer with the same count on every path (=C10.R10)', c10.r10_wrapper_hooks)
